@@ -1111,19 +1111,28 @@ def binary_oracles(ctx, rep):
             d1 = with_files(j["files"])
             d0 = with_files({})
             tmpdirs += [d0, d1]
-            flat += [(j["args"], j["d_unknown"], d0), (j["args"], j["d_unknown"], d1), (j["args"], j["d_txt"], d0)]
+            d2 = with_files({"qzdflt": j["files"][j["name"]]})
+            tmpdirs.append(d2)
+            dl = j["args"] + ["--default-language", "qzdflt"]
+            flat += [(j["args"], j["d_unknown"], d0), (j["args"], j["d_unknown"], d1), (j["args"], j["d_txt"], d0),
+                     (dl, j["d_unknown"], d0), (dl, j["d_unknown"], d2)]
         results = parallel_map(lambda r: run_case(ctx, r[0], r[1], r[2]), flat)
     finally:
         for d in tmpdirs:
             shutil.rmtree(d, ignore_errors=True)
     for n, j in enumerate(b6):
-        res = results[3 * n:3 * n + 3]
-        runs = flat[3 * n:3 * n + 3]
+        res = results[5 * n:5 * n + 5]
+        runs = flat[5 * n:5 * n + 5]
 
         def evaluate(res, sink, j=j):
-            empty, withfile, txt = res
+            empty, withfile, txt, dl_empty, dl_file = res
             if any(r[0] != 0 for r in res):
                 return
+            if dl_empty[1] != dl_file[1]:
+                dl = j["args"] + ["--default-language", "qzdflt"]
+                sink.violation("language:default-language-reads-cwd-file",
+                               "with --default-language qzdflt the colouring of %s changes when a file ./qzdflt exists (its first line is read)" % j["name"],
+                               replay_obj("B6", [(dl, j["d_unknown"], {}), (dl, j["d_unknown"], {"qzdflt": j["files"][j["name"]]})], names=[]))
             if empty[1] != withfile[1]:
                 sink.violation("language:depends-on-file-in-cwd",
                                "output changes when a file named %s exists in the working directory" % j["name"],
@@ -1146,7 +1155,7 @@ def binary_oracles(ctx, rep):
             continue
         rep.case(key=("b6", sha(j["d_unknown"]), tuple(j["args"])), nontrivial=True)
         rep.count("binary:content-independence")
-        confirm(ctx, rep, runs, res, evaluate, cwd_files=[{}, j["files"], {}])
+        confirm(ctx, rep, runs, res, evaluate, cwd_files=[{}, j["files"], {}, {}, {"qzdflt": j["files"][j["name"]]}])
 
 
 def run(ctx, rep):
@@ -1211,7 +1220,7 @@ def replay(ctx, rep, obj):
                 rep.violation("language:plain-text-file-highlighted", "a language was inferred from the content", case)
         elif oracle == "B6":
             if outs[0][1] != outs[1][1]:
-                rep.violation("language:depends-on-file-in-cwd", "output changes with a same-named file in cwd", case)
+                rep.violation(obj.get("signature") or "language:depends-on-file-in-cwd", "output changes with a file in the working directory", case)
         else:
             compare_rows(rep, oracle, "replayed rows differ", outs[0][1], outs[1][1], case.get("names", []), runs)
         return
